@@ -464,7 +464,7 @@ _tg, _te = _thr.make(T_CALLS, ['geodepy/ntv2reader.py', 'geodepy/transform.py'],
 from gpmc import interp as _ip
 
 
-SUBCHECKS = [Sub('files', gen, ev_single, chunk=1, floor=1000, guard=True, envs=6), Sub('threads', _tg, _te, chunk=1, floor=3, poison=False, fresh=True, timeout=3600), Sub('interpreter', *_ip.make('C17', 'ntv2reader'), chunk=1, floor=5, poison=False)]
+SUBCHECKS = [Sub('files', gen, ev_single, chunk=1, floor=1000, guard=True, envs=6), Sub('threads', _tg, _te, chunk=1, floor=3, poison=False, fresh=True, timeout=7200), Sub('interpreter', *_ip.make('C17', 'ntv2reader'), chunk=1, floor=5, poison=False)]
 
 
 def bounds(tier, seed):
